@@ -1,0 +1,14 @@
+//go:build verif
+
+package chain
+
+// Thin exports for the verification harness (engine "notar", property C41). No logic here.
+
+// VerifNotarVerifyLFBTicket exposes verifyLFBTicket.
+func (c *Chain) VerifNotarVerifyLFBTicket(t *LFBTicket) bool { return c.verifyLFBTicket(t) }
+
+// VerifNotarLFBTicketQueueLen reports how many received tickets / local broadcasts the LFB ticket worker has not
+// taken from its channels yet (used only to detect that an input has been consumed).
+func (c *Chain) VerifNotarLFBTicketQueueLen() int {
+	return len(c.updateLFBTicket) + len(c.broadcastLFBTicket)
+}
